@@ -4,7 +4,7 @@
    inspection variant of Gen/InspectGen.v and the run-space variant of Gen/RunSpaceGen.v. *)
 From Coq Require Import List String ZArith Bool Arith Lia.
 From SV Require Import Common.Prelude Model.Pipeline Model.PipelineLib Model.Inspect.
-From SV Require Model.RunSpace.
+From SV Require Model.RunSpace Model.Loader Proofs.Loader Gen.LoaderGen.
 From SV Require Import Model.Cli Gen.InspectGen Gen.RunSpaceGen Gen.CliGen Proofs.Cli.
 Import ListNotations.
 Local Open Scope string_scope.
@@ -313,6 +313,21 @@ Theorem C17_use_before_create_passes_gate_when : order_sensitive (k_iv knobs) = 
   rejected_at knobs ubc_req = None /\ In (SinkWrote "first.txt") (snd (cli knobs ubc_req)) /\ fst (cli knobs ubc_req) = 4%Z.
 Proof. intro H. first [ (vm_compute in H; discriminate H) | (vm_compute; repeat split; tauto) ]. Qed.
 
+(* ---------- a run-space dry run is requested by ANY truthy spelling of run_space.dry_run (true, 1, "yes", ...): the loader
+   reads the member by truthiness (fact read from load_pipeline_from_yaml.py on this run; hard obligation) ---------- *)
+Lemma gen_dry_run_by_truthiness : Loader.d_dry_truthy LoaderGen.impl = true.
+Proof. reflexivity. Qed.
+Theorem C17_dry_run_spellings : forall y, Loader.load_dry LoaderGen.impl (Some y) = Loader.truthy y.
+Proof. intros y. apply Proofs.Loader.dry_run_is_truthiness. exact gen_dry_run_by_truthiness. Qed.
+Theorem C17_dry_run_spellings_refuted_when :
+  Loader.d_dry_truthy LoaderGen.impl = false ->
+  Loader.load_dry LoaderGen.impl (Some (Loader.YInt 1)) = false /\ Loader.truthy (Loader.YInt 1) = true.
+Proof. apply Proofs.Loader.dry_identity_refuted. Qed.
+Example ex_dry_spellings :
+  map (fun y => Loader.load_dry LoaderGen.impl (Some y)) [Loader.YBool true; Loader.YInt 1; Loader.YStr "yes"; Loader.YInt 0; Loader.YStr ""; Loader.YNull; Loader.YBool false]
+  = [true; true; true; false; false; false; false].
+Proof. reflexivity. Qed.
+Print Assumptions C17_dry_run_spellings.
 Print Assumptions C17_full.
 Print Assumptions C17_reject_no_effect.
 Print Assumptions C17_reject_exact.
